@@ -99,7 +99,9 @@ def main():
             nat[name + '_KEY_SIZE'] = int(mk.group(1))
         else:
             missing.append(name + '_KEY_SIZE')
-    m = re.search(r'GenericArray::from\(\[((?:\s*0x[0-9A-Fa-f]{2},?)+)\s*\]\)', cph)
+    # the fixed Salsa20 nonce: the byte array literal inside `impl Salsa20Cipher { fn new … }`
+    salsa = re.search(r'impl Salsa20Cipher \{(.*?)\n\}', cph, re.S)
+    m = re.search(r'\[((?:\s*0x[0-9A-Fa-f]{2},?){8})\s*\]', salsa.group(1)) if salsa else None
     if m:
         byts['SALSA20_NONCE'] = [int(x, 16) for x in re.findall(r'0x([0-9A-Fa-f]{2})', m.group(1))]
     else:
